@@ -291,6 +291,10 @@ func hostport(s string) (host, port string) {
 		return "", ""
 	}
 	n := strings.LastIndexByte(s, ':')
+	if n < 0 {
+		// no port
+		return s, ""
+	}
 	return s[:n], s[n+1:]
 }
 
